@@ -1,0 +1,25 @@
+//go:build verif
+
+package verifhook
+
+import (
+	"archive/tar"
+	"io"
+
+	"github.com/pojntfx/stfs/internal/suffix"
+	"github.com/pojntfx/stfs/internal/tarext"
+)
+
+// NewTapeWriter is internal/tarext.NewTapeWriter (non-regular drives pad every archive to a whole record).
+func NewTapeWriter(f io.Writer, isRegular bool, recordSize int) (*tar.Writer, func(dirty *bool) error, error) {
+	return tarext.NewTapeWriter(f, isRegular, recordSize)
+}
+
+// AddSuffix / RemoveSuffix are the pipeline suffix functions of internal/suffix.
+func AddSuffix(name, compressionFormat, encryptionFormat string) (string, error) {
+	return suffix.AddSuffix(name, compressionFormat, encryptionFormat)
+}
+
+func RemoveSuffix(name, compressionFormat, encryptionFormat string) (string, error) {
+	return suffix.RemoveSuffix(name, compressionFormat, encryptionFormat)
+}
